@@ -53,11 +53,36 @@ theorem any_visit_order_prefix_resolvable (c : Cache) (d : Disk) (f : Nat) (root
 theorem walk_is_a_visit_order (c : Cache) (f : Nat) (h : Hash) (ws : List Hash)
     (hw : walk c f h = some ws) : WalksN c f h ws := walk_walksN c f h ws hw
 
+/-- what the driver executes: `walkO`/`commitV` take the order the runtime picked at
+    **every visit** (found from the observed Put sequence); whatever those orders are,
+    the sequence is a `WalksN` one, so all crash-point theorems apply to it … -/
+theorem walkO_is_a_visit_order (c : Cache) (f : Nat) (h : Hash) (ords : Ords) (ws : List Hash) (rest : Ords)
+    (hw : walkO c f h ords = some (ws, rest)) : WalksN c f h ws := walkO_walksN c f h ords ws rest hw
+
+/-- … and `commitV` (complete, or refused at any physical write) preserves the invariant
+    and only extends the disk, for every choice of per-visit orders. -/
+theorem commitV_preserves_invariant (s : St) (root : Hash) (failAt : Option Nat) (fuel : Nat) (ords : Ords)
+    (out : CommitOut) (hi : Inv s) (hc : commitV s root failAt fuel ords = some out) :
+    Inv out.st ∧ Extends s.disk out.st.disk :=
+  ⟨commitV_inv hi hc, commitV_extends hi.consistent hc⟩
+
+/-- `commit` is `commitWith` after the stored-order walk: the two commits differ only in the walk -/
+theorem commit_is_commitWith_after_walk (s : St) (root : Hash) (failAt : Option Nat) (fuel : Nat) :
+    commit s root failAt fuel = (walk s.cache fuel root).map (commitWith s failAt) :=
+  commit_eq_commitWith s root failAt fuel
+
 /-- the physical batches are exactly the Put sequence cut into pieces (nothing
     lost, nothing reordered), the last piece being the final `batch.Write()`. -/
 theorem batches_cover_writes (c : Cache) (ws : List Hash) :
     (splitBatches c ws [] 0).flatten = ws := by
   rw [splitBatches_flatten]; simp
+
+/-- the Put/flush loop of `commit` written against the batch object (`BatchSt`: `Put` adds
+    `len(value)` to the size, `ValueSize`, `Reset`, final `Write`) issues exactly the physical
+    writes `splitBatches` describes — the flush rule of the model *is* the Go loop. -/
+theorem commit_loop_is_splitBatches (c : Cache) (ws : List Hash) :
+    commitLoop c ws ⟨[], 0⟩ [] = splitBatches c ws [] 0 := by
+  rw [commitLoop_eq]; simp
 
 /-- crash after any number `j` of physical batch writes of a commit, however
     the flush rule split it ("including commits large enough to be split over
@@ -254,6 +279,14 @@ exist only because the leaf callback ran. -/
 
 /-- its commit walk is the post-order `1,2,3,4,5` -/
 example : walk exS5.cache 6 5 = some [1, 2, 3, 4, 5] := by decide
+
+/-- the batch loop on the example: sizes 5,6,20,30,40 stay below the flush threshold: one final write -/
+example : commitLoop exS5.cache [1, 2, 3, 4, 5] ⟨[], 0⟩ [] = [[1, 2, 3, 4, 5]] := by decide
+
+/-- `walkO` on the example: the runtime lists code `4` before storage root `3` at the visit of `5` -/
+example : walkO exS5.cache 3 5 [(5, [4, 3])] = some ([4, 1, 2, 3, 5], []) ∧
+    walkO exS5.cache 3 5 [] = some ([1, 2, 3, 4, 5], []) ∧
+    walkO exS5.cache 3 5 [(5, [4, 9])] = some ([1, 2, 3, 4, 5], [(5, [4, 9])]) := by decide
 
 /-- hypotheses of `any_visit_order_*`: the other map order at node `5` (code `4` before storage root `3`) -/
 example : WalksN exS5.cache 3 5 [4, 1, 2, 3, 5] := by
